@@ -129,6 +129,9 @@ struct Stats {
   }
 };
 
+inline int& watchdog_seconds() { static int s = 0; return s; }
+inline void rearm_watchdog() { const int sec = watchdog_seconds(); if (sec > 0) { struct itimerval it; std::memset(&it, 0, sizeof(it)); it.it_value.tv_sec = sec; setitimer(ITIMER_VIRTUAL, &it, nullptr); } }
+
 struct Ctx {
   Stats st;
   u64 trace = 0xcbf29ce484222325ULL;
@@ -150,6 +153,7 @@ struct Ctx {
   }
   void begin_step(int idx, int kind) {
     cur_step = idx; cur_kind = kind; st.steps++;
+    rearm_watchdog();   // the CPU budget is per step: a run is as long as its plan, a single library call sequence that never returns is the hang
     if (progress_fd >= 0) { int v[2] = { idx, kind }; ssize_t r = write(progress_fd, v, sizeof(v)); (void)r; }
   }
 };
@@ -184,13 +188,14 @@ inline World* find_world(const std::string& n) {
   return nullptr;
 }
 
-// per-call CPU watchdog (ITIMER_VIRTUAL): a non-terminating library call is turned into a process abort with exit 78
+// per-step CPU watchdog (ITIMER_VIRTUAL): a non-terminating library call is turned into a process abort with exit 78
 inline void watchdog_handler(int) { static const char m[] = "DSIM-WATCHDOG: step exceeded CPU budget\n"; ssize_t r = write(2, m, sizeof(m) - 1); (void)r; _exit(78); }
 inline void arm_watchdog(int seconds) {
+  watchdog_seconds() = seconds;
   struct sigaction sa; std::memset(&sa, 0, sizeof(sa)); sa.sa_handler = watchdog_handler; sigaction(SIGVTALRM, &sa, nullptr);
   struct itimerval it; std::memset(&it, 0, sizeof(it)); it.it_value.tv_sec = seconds; setitimer(ITIMER_VIRTUAL, &it, nullptr);
 }
-inline void disarm_watchdog() { struct itimerval it; std::memset(&it, 0, sizeof(it)); setitimer(ITIMER_VIRTUAL, &it, nullptr); }
+inline void disarm_watchdog() { watchdog_seconds() = 0; struct itimerval it; std::memset(&it, 0, sizeof(it)); setitimer(ITIMER_VIRTUAL, &it, nullptr); }
 
 inline Outcome run_inproc(World* w, const Plan& p, int progress_fd = -1) {
   Outcome o; Ctx ctx; ctx.progress_fd = progress_fd; ctx.family = w->family_of(p);
